@@ -351,6 +351,35 @@ class Gen(object):
                 st.fields.append(v)
                 env.all_fields.append(v.name)
                 self.features.add("boundary-virtual")
+        # forward references: a conditional field declared BEFORE the field its condition reads
+        # (e.g. a trailing tag).  Dependency order then differs from source order, which is what
+        # Ok(), text output and text input iterate in.
+        late = [f for f in st.fields if not f.is_virtual and not f.is_anon and f.cond is None and f.typ is not None and not f.typ.dims and f.typ.kind == "UInt" and f.typ.bits == 8 and f.start[0] == "n" and f.requires is None]
+        if late and r.random() < 0.4:
+            tagf = late[-1]
+            base = (cursor if cursor is not None else 24) + 8
+            nfwd = r.choice([1, 1, 2])
+            for j in range(nfwd):
+                c = r.choice([0, 1, 1, 2, 2, 3])
+                f = M.Field(self.name("f"), ("n", base + 2 * j), ("n", r.choice([1, 2])), None)
+                f.typ = M.Type("UInt", 8 * f.size[1])
+                if f.size[1] > 1 and not self.has_default_bo(st):
+                    f.byte_order = r.choice(["LittleEndian", "BigEndian"])
+                f.cond = ("op", r.choice(["==", "==", "==", "!=", "<="]), ("r", (tagf.name,)), ("n", c))
+                f.end_max = base + 2 * j + 2
+                idx = st.fields.index(tagf)
+                # never directly before a `$next` field: $next is the end of the textually previous physical field
+                spots = []
+                for pos_ in range(0, idx + 1):
+                    nxt = next((x for x in st.fields[pos_:] if not x.is_virtual), None)
+                    if nxt is None or getattr(nxt, "start_text", None) is None:
+                        spots.append(pos_)
+                if not spots:
+                    break
+                st.fields.insert(r.choice(spots), f)
+                env.all_fields.append(f.name)
+            self.features.add("forward-reference")
+            self.features.add("conditional")
         # wide arithmetic: sums, differences and products of multi-byte fields whose operands fit a
         # narrower C++ type than the result (the back end must compute in the result's type)
         ints = []
